@@ -4,6 +4,7 @@ import (
 	"bytes"
 	"encoding/json"
 	"fmt"
+	"hash/fnv"
 	"math/big"
 	"sort"
 	"strings"
@@ -88,6 +89,17 @@ func genCTyK(rng *lp.Rand, depth int, wantObj bool) *cTy {
 	return t
 }
 
+// cArrKey: the part of an array-of-arrays shape that the wrapper's name carries (kinds and leaf nullability)
+func cArrKey(t *cTy) string {
+	if t.kind == "arr" {
+		if t.item.kind == "arr" {
+			return "A" + cArrKey(t.item)
+		}
+		return fmt.Sprintf("A%v%s", t.nul, t.item.kind)
+	}
+	return t.kind
+}
+
 func genCTy(rng *lp.Rand, depth int, wantObj bool) *cTy {
 	k := rng.Intn(6)
 	if wantObj {
@@ -104,7 +116,17 @@ func genCTy(rng *lp.Rand, depth int, wantObj bool) *cTy {
 	case 2:
 		return &cTy{kind: "bool"}
 	case 3, 4:
-		return &cTy{kind: "arr", nul: rng.Chance(35), item: genCTy(rng, depth-1, false)}
+		a := &cTy{kind: "arr", nul: rng.Chance(35), item: genCTy(rng, depth-1, false)}
+		if a.item.kind == "arr" {
+			// K22: the generic wrapper of a boxed array is named after the item's name postfix, which does not say
+			// whether an inner array is nullable — two boxed arrays of arrays that differ only there share one wrapper
+			// in a package. The nullability of inner arrays is therefore a function of the rest of the shape here
+			// (the hand-written case NestedNullArr of the format matrix is the witness of the class).
+			h := fnv.New32a()
+			h.Write([]byte(cArrKey(a.item)))
+			a.nul = h.Sum32()%100 < 35
+		}
+		return a
 	}
 	n := 1 + rng.Intn(5)
 	seen := map[string]bool{}
